@@ -17,7 +17,7 @@ Require Import Grits.Base Grits.Forms Grits.Expand Grits.TcTop Grits.Runtime.
 Require Import Grits.RuntimeFootprint Grits.proofs.RuntimeFacts Grits.proofs.Diamond Grits.proofs.Determinism Grits.proofs.AsyncSync Grits.proofs.RuntimeCheckFacts Grits.proofs.ForkJoin Grits.proofs.DeterminismExamples.
 Require Import Grits.Tc Grits.spec.RtTyping Grits.spec.Topo Grits.proofs.RtSafety Grits.proofs.RtInit Grits.proofs.RtTheorems Grits.proofs.DeterminismTyped Grits.proofs.TopoLin Grits.proofs.TopoStep Grits.proofs.TopoReach Grits.proofs.InitLinear.
 Require Import Grits.spec.SynOk Grits.proofs.RtTcSyn Grits.proofs.RtTheoremsTc Grits.proofs.DeterminismTc.
-Require Import Grits.proofs.LinBridge Grits.proofs.InitAccept Grits.proofs.DeterminismAccept Grits.proofs.TopoStepExt Grits.proofs.TopoFinish Grits.proofs.TopoDup Grits.proofs.InvAll Grits.proofs.DeterminismAll Grits.proofs.AsyncSync Grits.proofs.InvNP Grits.proofs.PlainNP Grits.proofs.DeterminismNP Grits.proofs.Balanced Grits.proofs.RtTheoremsTc Grits.proofs.DeterminismFinal Grits.proofs.NPConfluence Grits.proofs.NPCfree Grits.proofs.NPJoin Grits.proofs.NPJoinA Grits.proofs.NPJoinBC Grits.proofs.NPDeterminism Grits.proofs.DeterminismNPCfree Grits.proofs.NPSync Grits.proofs.NPFlush Grits.proofs.NPNegFwd Grits.proofs.NPAgreeNeg Grits.proofs.NPAgreeNegConv Grits.proofs.RtSafetyNP Grits.proofs.StepErrors Grits.ModeDefs Grits.Modes Grits.STypes Grits.Subst.
+Require Import Grits.proofs.LinBridge Grits.proofs.InitAccept Grits.proofs.DeterminismAccept Grits.proofs.TopoStepExt Grits.proofs.TopoFinish Grits.proofs.TopoDup Grits.proofs.InvAll Grits.proofs.DeterminismAll Grits.proofs.AsyncSync Grits.proofs.InvNP Grits.proofs.PlainNP Grits.proofs.DeterminismNP Grits.proofs.Balanced Grits.proofs.RtTheoremsTc Grits.proofs.DeterminismFinal Grits.proofs.NPConfluence Grits.proofs.NPCfree Grits.proofs.NPJoin Grits.proofs.NPJoinA Grits.proofs.NPJoinBC Grits.proofs.NPDeterminism Grits.proofs.DeterminismNPCfree Grits.proofs.NPSync Grits.proofs.NPFlush Grits.proofs.NPNegFwd Grits.proofs.NPAgreeNeg Grits.proofs.NPAgreeNegConv Grits.proofs.NPPosFwd Grits.proofs.RtSafetyNP Grits.proofs.StepErrors Grits.ModeDefs Grits.Modes Grits.STypes Grits.Subst.
 
 Theorem C03_step_is_move : forall md D F c ch, step md D F c ch = sres_of c (move_of md D F c ch).
 Proof. exact step_move. Qed.
@@ -793,6 +793,23 @@ Theorem C03_polarized_np_agree_negfwd : forall txt p p' pick1 f1 t1,
     exists t2, exec_run f2 pick2 NP (p_types p') (p_funs p') (init_config p') = RQuiescent t2 /\ labels t2 ≡ₚ labels t1.
 Proof. exact polarized_np_agree_negfwd. Qed.
 
+(* ---- groundwork for positive forwards (the agreement is NOT proved for them): where the two modes part *)
+Theorem C03_pos_handover_steps : forall D F c f t to from nf nxf n0 B nx k kf st m,
+  f <> t ->
+  procs c !! f = Some (Proc [nf] (FFwd to from false) nxf) -> is_self to = true -> chan from = Some k ->
+  fwd_polarity D from = Ok Pos -> chan nf = Some kf ->
+  procs c !! t = Some (Proc [n0] B nx) -> chan n0 = Some k ->
+  action_of Async D (Proc [n0] B nx) = ASend k m -> pos_rule (m_rule m) = true ->
+  chans c !! k = Some st -> ch_closed st = false ->
+  exists B',
+    step Sync D F c (Rendezvous t f) =
+      SStep (Cfg (<[f := Proc [nf] B' (nxf + 0)]> (delete t (procs c))) (chans c) (out c)) /\
+    step NP D F c (Control f t) =
+      SStep (Cfg (<[t := Proc [nf] B (nx + 0)]> (delete f (procs c))) (close_all [k] (chans c)) (out c)) /\
+    action_of Async D (Proc [nf] B' (nxf + 0)) = ASend kf m /\
+    action_of Async D (Proc [nf] B (nx + 0)) = ASend kf m.
+Proof. exact pos_handover_steps. Qed.
+
 Print Assumptions C03_init_linear_accept.
 Print Assumptions C03_topo_runs_core_accept.
 Print Assumptions C03_determinism_core_accept.
@@ -847,3 +864,4 @@ Print Assumptions C03_example_negfwd_runs.
 Print Assumptions C03_np_flush_terminates.
 Print Assumptions C03_polarized_np_agree_negfwd_cfg.
 Print Assumptions C03_polarized_np_agree_negfwd.
+Print Assumptions C03_pos_handover_steps.
